@@ -6,14 +6,26 @@ use crate::rng::{mix, Rng};
 use nexrad_model::data::{Radial, RadialStatus, Sweep};
 use serde_json::json;
 
-/// A radial whose identity is its unique collection timestamp.
+const STATUSES: [RadialStatus; 6] = [
+    RadialStatus::ElevationStart,
+    RadialStatus::IntermediateRadialData,
+    RadialStatus::ElevationEnd,
+    RadialStatus::VolumeScanStart,
+    RadialStatus::VolumeScanEnd,
+    RadialStatus::ElevationStartVCPFinal,
+];
+
+/// A radial whose identity is its unique collection timestamp.  Every other attribute (status,
+/// angles, spacing) varies with the identity: grouping and merging must depend on the elevation
+/// and azimuth *numbers* only.
 pub fn mk_radial(id: i64, az_num: u16, elev: u8) -> Radial {
+    let h = crate::rng::mix(id as u64, 0x5157);
     Radial::new(
         id,
         az_num,
         az_num as f32 * 0.5,
-        0.5,
-        RadialStatus::IntermediateRadialData,
+        if h & 8 == 0 { 0.5 } else { 1.0 },
+        STATUSES[(h % 6) as usize],
         elev,
         elev as f32 * 0.1,
         None,
